@@ -477,6 +477,23 @@ def run(ctx, rep):
                     else:
                         rep.violation("C01.pairing", "decode:sharing", "witnesses are attached under %s" % cs.f.get("args"), cs.where())
 
+    # the writer and the reader of witness values use the same form of the value encoding (compact / padded)
+    ev = F.fn(ENC + "encode_value")
+    readers = [f for f in F.fns.values() if f.name == "convert_witness" and "redeem::Redeem>>::decode::" in f.path]
+    if ev is None or len(readers) != 1:
+        rep.anchor("C01.pairing", "encode_value / RedeemNode::decode's convert_witness")
+    else:
+        wform = {cs.name for cs in ev.calls() if cs.name in ("iter_compact", "iter_padded")}
+        rform = {cs.name for cs in readers[0].calls() if cs.name in ("from_compact_bits", "from_padded_bits")}
+        w = {"iter_compact": "compact", "iter_padded": "padded"}
+        r = {"from_compact_bits": "compact", "from_padded_bits": "padded"}
+        wf, rf = {w[x] for x in wform}, {r[x] for x in rform}
+        if len(wf) == 1 and wf == rf:
+            rep.ok("C01.pairing", "witness values are written and read in the %s form" % list(wf)[0], None)
+        else:
+            rep.violation("C01.pairing", "value-form", "encode_value writes the %s encoding of a value, RedeemNode::decode reads the %s one: "
+                          "they differ for every sum with summands of different width" % (sorted(wf) or "?", sorted(rf) or "?"), ev.where())
+
     # ---------------- flush ----------------
     for f in F.fns.values():
         if f.name in ("encode_without_witness", "encode_with_witness") and f.impl_adt == "simplicity::node::Node":
